@@ -13,6 +13,9 @@ CLAIMED={
  "C19":("runtime law monitor over point membership: for every generated pair the results of Union/Intersection/Contains/Intersects/Expanded/Complement/Project/AddPoint/PolarClosure are compared, probe by probe, with the closed-interval membership definition evaluated by the monitor (probes: every endpoint, its +-1 ulp neighbours, midpoints; grids for rectangles); caps: high-precision chord distances with 1e-14 slack; all results must be valid values",
          "Held on every execution observed: ~10^6 (quick) / ~6*10^7 (thorough) pairs of r1/s1 intervals, r2 rectangles, lat-lng rectangles, caps and chord-angle sums, endpoints concentrated at +-pi, +-pi/2, 0 and their ulp neighbours, incl. empty/full/singleton/inverted. 'A does not contain B' is only asserted when a float witness exists (complement of A holds a float).",
          "Trusted: the documented definition of membership in one interval (lo<=p<=hi, wrapped, -pi==pi), internal/ref 320-bit chord lengths for caps.","DESIGN.md section 5 C19"),
+ "C11":("runtime reference-model monitor: every Normalize/IsNormalized/Denormalize/LeafCellsCovered/union/intersection/difference/Contains*/Intersects*/CellUnionFromRange call, s2intersect.Find and the CellIndex range+contents iterators are compared with an exact leaf-interval set model (canonical form and minimal tiling computed independently)",
+         "Held on every execution observed: 2*10^5 (quick) / 1.7*10^7 (thorough) hostile multisets and tuples (nested, overlapping, duplicated, sibling groups, whole faces, ends of the curve); every operation must equal the model exactly, including normal form.",
+         "Trusted: internal/ref/leafset.go (integer interval sets, self-checked each run by inclusion-exclusion, partition and canonical round-trip identities).","DESIGN.md section 5 C11"),
 }
 NA_REASON="monitor not built yet in this session (planned in DESIGN.md section 5); will be claimed once its check exists and is silent on the unchanged tree"
 def main():
